@@ -369,6 +369,46 @@ Theorem C20_container_cover :
             end.
 Proof. intros. now apply call_cover_spec. Qed.
 
+(** one injector instance reused for many calls: [_preprocess] overwrites [self._columns] in both
+    branches before [_postprocess] reads it, so the result of a call (and the attribute it leaves)
+    does not depend on the state left by earlier calls, and a whole call history returns what
+    independent calls return *)
+Theorem C20_instance_state_irrelevant :
+  forall (L A : Type) (leqb : L -> L -> bool) (eqb ltb : A -> A -> bool) (dflt : A)
+         (st1 st2 : istate L) (fr : frame L A),
+  (forall c f, call1_st leqb st1 fr c f = call1_st leqb st2 fr c f /\
+               snd (call1_st leqb st1 fr c f) = call1 leqb fr c f) /\
+  (forall from to c1 c2,
+     call_swap_st leqb st1 fr from to c1 c2 = call_swap_st leqb st2 fr from to c1 c2 /\
+     snd (call_swap_st leqb st1 fr from to c1 c2) = call_swap leqb fr from to c1 c2) /\
+  (forall c size idxs,
+     call_cover_st leqb eqb ltb dflt st1 fr c size idxs = call_cover_st leqb eqb ltb dflt st2 fr c size idxs /\
+     snd (call_cover_st leqb eqb ltb dflt st1 fr c size idxs) = call_cover leqb eqb ltb dflt fr c size idxs) /\
+  (* histories of calls [(data, column, body)] on one instance *)
+  (forall calls : list (frame L A * colref L * (Z -> list (list A) -> option (list (list A)))),
+     map snd (run_calls (fun st x => call1_st leqb st (fst (fst x)) (snd (fst x)) (snd x)) st1 calls) =
+     map (fun x => call1 leqb (fst (fst x)) (snd (fst x)) (snd x)) calls) /\
+  (* the attribute after a call: the labels of a DataFrame, None after an ndarray *)
+  (forall c f, fst (call1_st leqb st1 fr c f) = match fr with Arr _ => None | DF cols _ => Some cols end).
+Proof.
+  intros L A leqb eqb ltb dflt st1 st2 fr. split; [|split; [|split; [|split]]].
+  - intros c f. split; [|apply call1_st_stateless]. apply injective_projections.
+    + now rewrite (proj2 (call1_st_stateless leqb st1 fr c f)), (proj2 (call1_st_stateless leqb st2 fr c f)).
+    + now rewrite (proj1 (call1_st_stateless leqb st1 fr c f)), (proj1 (call1_st_stateless leqb st2 fr c f)).
+  - intros from to c1 c2. split; [|apply call_swap_st_stateless]. apply injective_projections.
+    + now rewrite (proj2 (call_swap_st_stateless leqb st1 fr from to c1 c2)),
+                  (proj2 (call_swap_st_stateless leqb st2 fr from to c1 c2)).
+    + now rewrite (proj1 (call_swap_st_stateless leqb st1 fr from to c1 c2)),
+                  (proj1 (call_swap_st_stateless leqb st2 fr from to c1 c2)).
+  - intros c size idxs. split; [|apply call_cover_st_stateless]. apply injective_projections.
+    + now rewrite (proj2 (call_cover_st_stateless leqb eqb ltb dflt st1 fr c size idxs)),
+                  (proj2 (call_cover_st_stateless leqb eqb ltb dflt st2 fr c size idxs)).
+    + now rewrite (proj1 (call_cover_st_stateless leqb eqb ltb dflt st1 fr c size idxs)),
+                  (proj1 (call_cover_st_stateless leqb eqb ltb dflt st2 fr c size idxs)).
+  - intro calls. apply run_calls_stateless. intros st x. apply call1_st_stateless.
+  - intros c f. apply call1_st_stateless.
+Qed.
+
 (** a column name resolves to the first column carrying that label *)
 Theorem C20_column_resolution :
   forall (L : Type) (leqb : L -> L -> bool) (l : L) (cols : list L) (i : Z),
@@ -440,4 +480,5 @@ Print Assumptions C20_unique_classes.
 Print Assumptions C20_container_preserved.
 Print Assumptions C20_container_preserved_swap.
 Print Assumptions C20_container_cover.
+Print Assumptions C20_instance_state_irrelevant.
 Print Assumptions C20_column_resolution.
